@@ -90,6 +90,17 @@ class Scheduler:
         self.running = None         # ThreadRec currently holding the baton
         self.on_step = None         # optional hook(sched, rec|TICK) after each step
         self.errors = []            # harness-level problems (WouldBlock in controller, ...)
+        self.line_yield = set()     # code objects in which EVERY source line is a yield point (see yield_at_lines)
+
+    def yield_at_lines(self, *functions):
+        """Pre-emption inside pure Python code: every source line executed in one of the given
+        functions (by a virtual thread started afterwards) becomes a yield point, so that races
+        between two plain statements (a dictionary being iterated while another thread inserts,
+        a test and a use of the same attribute) get explored.  Costly: name only the functions
+        under study."""
+        for f in functions:
+            f = getattr(f, '__func__', f)
+            self.line_yield.add(f.__code__)
 
     # ------------------------------------------------------------------ registration
     def register(self, vthread, base_name):
@@ -274,6 +285,19 @@ class Scheduler:
         return leaked
 
 
+def _line_tracer(sched):
+    def local(frame, event, arg):
+        if event == 'line' and not sched.killing:
+            sched.yield_op(Op('line', frame.f_code.co_name, lambda: True, lambda: None))
+        return local
+
+    def glob(frame, event, arg):
+        if event == 'call' and frame.f_code in sched.line_yield:
+            return local
+        return None
+    return glob
+
+
 def thread_main(sched, rec, body):
     """OS-thread body of a virtual thread."""
     _tls.rec = rec
@@ -282,6 +306,8 @@ def thread_main(sched, rec, body):
         if sched.killing:
             return
         try:
+            if sched.line_yield:
+                sys.settrace(_line_tracer(sched))
             body()
         except Kill:
             pass
